@@ -49,6 +49,7 @@ def readBuf : Nat → SIter α → List α × Option Err × SIter α × Nat
 
 /-- `fetchMore` -/
 def fetchMore (B : Nat) (s : State α) : State α :=
+  if s.err.isSome then s else    -- `if s.state.Load().err != nil { return }` (never read past a recorded error)
   let (xs, e, it, k) := readBuf B s.under
   { s with under := it, nexts := s.nexts + k, items := s.items ++ xs,
            err := match e with | some e => some e | none => s.err }
